@@ -87,14 +87,16 @@ fn main() {
     // counted exactly one hit or one miss, and every miss ran the body exactly once
     let tagged: Vec<_> = specs
         .iter()
-        .filter(|s| !s.thread && !s.has_pred && s.ttl.is_none() && !s.tags.is_empty())
+        .filter(|s| !s.thread && !s.has_pred && !s.tags.is_empty())
         .cloned()
         .collect();
     let mut pick: Vec<_> = Vec::new();
     for want_async in [false, true] {
-        let pool: Vec<_> = tagged.iter().filter(|s| s.is_async == want_async).cloned().collect();
-        if !pool.is_empty() {
-            pick.push(pool[seed as usize % pool.len()].clone());
+        for want_ttl in [false, true] {
+            let pool: Vec<_> = tagged.iter().filter(|s| s.is_async == want_async && s.ttl.is_some() == want_ttl).cloned().collect();
+            if !pool.is_empty() {
+                pick.push(pool[seed as usize % pool.len()].clone());
+            }
         }
     }
     for sp in pick {
@@ -136,12 +138,16 @@ fn main() {
             }));
         }
         let inv = {
-            let (stop, barrier, name, tag) = (stop.clone(), barrier.clone(), sp.name.clone(), sp.tags[0].clone());
+            let (stop, barrier, name, tag, ttl) = (stop.clone(), barrier.clone(), sp.name.clone(), sp.tags[0].clone(), sp.ttl);
             std::thread::spawn(move || {
                 barrier.wait();
                 let mut n = 0u64;
                 while !stop.load(Ordering::SeqCst) {
-                    if n % 2 == 0 {
+                    if let (Some(t), true) = (ttl, n % 3 != 2) {
+                        // with a ttl: mostly make every stored entry EXPIRED (virtual ageing through the verif hook), so that
+                        // expired-lookup paths race with plain misses, stores and each other
+                        cachelito_core::verif::age_global(&name, (t + 1) * 1000);
+                    } else if n % 2 == 0 {
                         cachelito_core::invalidate_by_tag(&tag);
                     } else {
                         cachelito_core::invalidate_with(&name, |_k| true);
@@ -173,5 +179,69 @@ fn main() {
             None => "-".to_string(),
         };
         println!("HS|{}|{}|{}|{}|{}|{}|{}", fi, sp.name, threads * rounds, e1 - e0, st, WRONG.load(Ordering::SeqCst), cons);
+    }
+    // memory-aware stores under contention (C05 / C18): every thread stores its own keys with values of about 60 % of
+    // max_memory, so that no two of them fit; once all callers have returned the estimated total is within max_memory
+    // and every stored key is tracked by the queue
+    let mem: Vec<_> = specs
+        .iter()
+        .filter(|s| !s.thread && !s.has_pred && s.ttl.is_none() && !s.is_result && s.max_mem.map(|m| m >= 90).unwrap_or(false))
+        .filter(|s| {
+            // only return types whose estimate grows with the payload (String / Vec), or nothing would ever overflow
+            rt::NEXT_TL.with(|n| n.set(Some(rt::Next { n: 1, ok: true, len: 200, ci: true, io: false })));
+            corpus::WOULD[s.idx]().1 > 150
+        })
+        .cloned()
+        .collect();
+    let mut pick: Vec<_> = Vec::new();
+    for want_async in [false, true] {
+        let pool: Vec<_> = mem.iter().filter(|s| s.is_async == want_async).cloned().collect();
+        if !pool.is_empty() {
+            pick.push(pool[seed as usize % pool.len()].clone());
+        }
+    }
+    for sp in pick {
+        let fi = sp.idx;
+        let m = sp.max_mem.unwrap();
+        rt::NEXT_TL.with(|n| n.set(Some(rt::Next { n: 1, ok: true, len: 8, ci: true, io: false })));
+        let _ = corpus::CALLS[fi](0);
+        let _ = cachelito_core::invalidate_with(&sp.name, |_k| true);
+        let barrier = Arc::new(Barrier::new(threads));
+        let mut hs = Vec::new();
+        let mut over = 0u64;
+        let mut worst = 0usize;
+        let mut incons = 0u64;
+        let reps = (rounds / 8).max(10);
+        for _rep in 0..reps {
+            hs.clear();
+            for t in 0..threads {
+                let barrier = barrier.clone();
+                hs.push(std::thread::spawn(move || {
+                    barrier.wait();
+                    for i in 0..3usize {
+                        let j = (t * 3 + i) % 6;
+                        // payload length so that the estimate is about 0.6 * max_memory (String/Vec: 24 bytes inline)
+                        let len = (m * 6 / 10).saturating_sub(24).max(4);
+                        rt::NEXT_TL.with(|n| n.set(Some(rt::Next { n: det_n(fi, j), ok: true, len, ci: true, io: false })));
+                        let _ = corpus::CALLS[fi](j);
+                    }
+                }));
+            }
+            for h in hs.drain(..) {
+                h.join().unwrap();
+            }
+            if let Some(d) = cachelito_core::verif::dump_global(&sp.name) {
+                let total: usize = d.entries.iter().map(|e| e.2).sum();
+                if total > m {
+                    over += 1;
+                    worst = worst.max(total);
+                }
+                let q: std::collections::HashSet<&String> = d.queue.iter().collect();
+                if d.entries.iter().any(|e| !q.contains(&e.0)) || d.queue.len() != q.len() {
+                    incons += 1;
+                }
+            }
+        }
+        println!("HM|{}|{}|{}|{}|{}|{}|{}", fi, sp.name, reps * threads * 3, m, over, worst, incons);
     }
 }
